@@ -37,14 +37,15 @@ import (
 )
 
 var (
-	flagSeed   = flag.Int64("seed", 1, "run seed")
-	flagFirst  = flag.Int("first", 0, "first round index")
-	flagCount  = flag.Int("count", 1, "number of rounds")
-	flagSlot   = flag.Int("slot", 0, "port slot of this child")
-	flagOut    = flag.String("out", "", "result file (JSON lines)")
-	flagWatch  = flag.Duration("watchdog", 120*time.Second, "per-round watchdog (only collects a goroutine dump)")
-	flagNoise  = flag.Bool("noise", true, "schedule noise at verif points")
-	flagEOFMax = flag.Duration("eofwait", 10*time.Second, "how long a peer waits to see its socket closed after Shutdown returned")
+	flagSeed      = flag.Int64("seed", 1, "run seed")
+	flagFirst     = flag.Int("first", 0, "first round index")
+	flagCount     = flag.Int("count", 1, "number of rounds")
+	flagSlot      = flag.Int("slot", 0, "port slot of this child")
+	flagOut       = flag.String("out", "", "result file (JSON lines)")
+	flagWatch     = flag.Duration("watchdog", 120*time.Second, "per-round watchdog (only collects a goroutine dump)")
+	flagShutWatch = flag.Duration("shutwatch", 30*time.Second, "watchdog for the phase in which only Shutdown/Run are awaited")
+	flagNoise     = flag.Bool("noise", true, "schedule noise at verif points")
+	flagEOFMax    = flag.Duration("eofwait", 10*time.Second, "how long a peer waits to see its socket closed after Shutdown returned")
 )
 
 // Viol is one refuting observation of a round
@@ -64,28 +65,29 @@ type Hang struct {
 
 // RoundResult is one line of the -out file
 type RoundResult struct {
-	Round        int              `json:"round"`
-	Mode         string           `json:"mode"`
-	Workers      int              `json:"workers"`
-	ListenFailed bool             `json:"listen_failed,omitempty"`
-	Ops          map[string]int64 `json:"ops"`
-	Callbacks    map[string]int64 `json:"callbacks"`
-	Reasons      map[string]int64 `json:"reasons"`
-	Received     int64            `json:"received"`
-	SendResults  int64            `json:"send_results"`
-	Violations   []Viol           `json:"violations,omitempty"`
-	Hang         *Hang            `json:"hang,omitempty"`
-	OrderHash    string           `json:"order_hash"`
-	ShutdownSig  string           `json:"shutdown_sig"`
-	Points       [8]int64         `json:"points"`
-	NoiseActs    [3]int64         `json:"noise_acts"`
-	ShutdownUs   int64            `json:"shutdown_us"`
-	Sizes        [5]int           `json:"sizes"`
-	PeerSockets  int              `json:"peer_sockets"`
-	PeerClosed   int              `json:"peer_closed"`
-	LogDropped   int64            `json:"log_dropped,omitempty"`
-	LateEvents   int64            `json:"late_events,omitempty"`
-	Note         string           `json:"note,omitempty"`
+	Round            int              `json:"round"`
+	Mode             string           `json:"mode"`
+	Workers          int              `json:"workers"`
+	ListenFailed     bool             `json:"listen_failed,omitempty"`
+	Ops              map[string]int64 `json:"ops"`
+	Callbacks        map[string]int64 `json:"callbacks"`
+	Reasons          map[string]int64 `json:"reasons"`
+	Received         int64            `json:"received"`
+	SendResults      int64            `json:"send_results"`
+	Violations       []Viol           `json:"violations,omitempty"`
+	Hang             *Hang            `json:"hang,omitempty"`
+	OrderHash        string           `json:"order_hash"`
+	ShutdownSig      string           `json:"shutdown_sig"`
+	Points           [8]int64         `json:"points"`
+	NoiseActs        [3]int64         `json:"noise_acts"`
+	ShutdownUs       int64            `json:"shutdown_us"`
+	Sizes            [5]int           `json:"sizes"`
+	PeerSockets      int              `json:"peer_sockets"`
+	PeerClosed       int              `json:"peer_closed"`
+	PeerUnattributed int              `json:"peer_unattributed,omitempty"`
+	LogDropped       int64            `json:"log_dropped,omitempty"`
+	LateEvents       int64            `json:"late_events,omitempty"`
+	Note             string           `json:"note,omitempty"`
 }
 
 var out *os.File
@@ -128,7 +130,7 @@ func main() {
 		case <-finished:
 			emit(rs.res)
 			done = append(done, rs)
-		case <-time.After(*flagWatch):
+		case <-watch(rs, finished):
 			// the round goroutine is still alive and owns rs.res: report on a fresh record
 			hr := &RoundResult{Round: rs.idx, Mode: rs.mode, Workers: rs.nWorkers, Note: "watchdog",
 				Ops: map[string]int64{}, Callbacks: map[string]int64{}, Reasons: map[string]int64{}}
@@ -154,6 +156,39 @@ func main() {
 			emit(late)
 		}
 	}
+}
+
+// watch fires when the round made no progress for too long: *flagWatch overall, or
+// *flagShutWatch once only Shutdown/Run are still awaited (typical: milliseconds). It only
+// triggers the collection of goroutine dumps.
+func watch(rs *roundState, finished chan struct{}) <-chan struct{} {
+	fire := make(chan struct{})
+	go func() {
+		start := time.Now()
+		var inShutdown time.Time
+		for {
+			select {
+			case <-finished:
+				return
+			case <-time.After(500 * time.Millisecond):
+			}
+			ph := sched.Load(&rs.phase)
+			if ph == 2 || ph == 3 {
+				if inShutdown.IsZero() {
+					inShutdown = time.Now()
+				}
+				if time.Since(inShutdown) > *flagShutWatch {
+					close(fire)
+					return
+				}
+			}
+			if time.Since(start) > *flagWatch {
+				close(fire)
+				return
+			}
+		}
+	}()
+	return fire
 }
 
 // ---------------------------------------------------------------------------------
@@ -244,6 +279,7 @@ func newRound(idx int) *roundState {
 type sock struct {
 	c          net.Conn
 	local      string
+	dialed     int64 // Tick() after the connection was established (0: accepted by a harness peer)
 	harnessEnd int64 // set (Xadd) when the harness itself closed it
 	readerDone chan struct{}
 	endErr     error
@@ -401,8 +437,12 @@ func (rs *roundState) startPeer(i int) error {
 	return nil
 }
 
+// pickPort: rounds that can run at the same time (in different children) have different
+// indexes, so they get different ports; below the ephemeral range so that no outgoing
+// connection can occupy one
 func pickPort(slot, idx, try int) int {
-	return 21000 + (slot%20)*500 + (idx*7+try*131)%500
+	_ = slot
+	return 21000 + (idx*3+try*1001)%10000
 }
 
 // ---------------------------------------------------------------------------------
@@ -616,6 +656,12 @@ func (rs *roundState) teardown() {
 		if sched.Load(&s.harnessEnd) != 0 {
 			continue
 		}
+		if s.dialed != 0 && s.dialed > sched.Load(&rs.shutdownStart) {
+			// dialled while the pool was already closing its listener: the port may belong to
+			// somebody else by now, nothing can be asserted about the other end
+			res.PeerUnattributed++
+			continue
+		}
 		res.PeerSockets++
 		if !timedOut {
 			select {
@@ -800,6 +846,7 @@ func (wk *worker) step() {
 			return
 		}
 		s := wk.rs.track(c)
+		s.dialed = sched.Tick()
 		wk.learn(s.local)
 		wk.rs.behave(s, rng.Intn(8), rand.New(rand.NewSource(rng.Int63())))
 		wk.rec("peer.dial", t, "ok", "")
